@@ -19,6 +19,10 @@
 
 
 
+#include <limits>
+
+
+
 #include <cstring>
 
 
@@ -554,7 +558,10 @@ ElemNumber::getCountString(
         if (DoubleSupport::isNaN(theValue) == true ||
             DoubleSupport::isPositiveInfinity(theValue) == true ||
             DoubleSupport::isNegativeInfinity(theValue) == true ||
-            DoubleSupport::lessThan(theValue, 0.5) == true)
+            DoubleSupport::lessThan(theValue, 0.5) == true ||
+            // A value that CountType cannot hold is not converted (that would be
+            // undefined behaviour); it is written as a plain number.
+            theValue >= double(std::numeric_limits<CountType>::max()))
         {
             NumberToDOMString(theValue, theResult);
         }
